@@ -2,7 +2,8 @@
    Only statements; proofs by reference (proofs/MigrateProofs.v generic, proofs/MigrateConcrete.v over the
    script lists regenerated from ctrl/qryn/sql/*.sql). *)
 From Coq Require Import List String NArith ZArith Bool Arith.
-From Qryn Require Import model.Migrate proofs.MigrateProofs proofs.MigrateClusterProofs proofs.MigrateConcProofs gen.GenScripts proofs.MigrateConcrete.
+From Qryn Require Import model.Migrate model.MigrateRepair proofs.MigrateProofs proofs.MigrateClusterProofs proofs.MigrateConcProofs
+  proofs.MigrateClassProofs proofs.MigrateSoloProofs proofs.MigrateRepairProofs gen.GenScripts proofs.MigrateConcrete.
 Import ListNotations.
 Open Scope nat_scope.
 
@@ -169,3 +170,72 @@ Theorem concurrent_oracle_accepts_model_logs : forall (c : cfg) (sched : list (b
      (snd (ch_conc gen_scripts gen_oncluster c sched (proc0 c) (proc0 c) (db0 (ccat cat) hs))))) = true.
 Proof. exact gen_conc_oracle_accepts. Qed.
 Print Assumptions concurrent_oracle_accepts_model_logs.
+
+(* ---- idempotence per statement CLASS (session 3).  Under the modelled ClickHouse semantics, on a catalogue
+   without duplicate object names (wf; kept by every statement), a statement of a guarded class -- CREATE TABLE /
+   VIEW / MATERIALIZED VIEW IF NOT EXISTS, DROP TABLE IF EXISTS, RENAME TABLE IF EXISTS, ALTER TABLE whose ADD
+   COLUMNs all say IF NOT EXISTS and whose MODIFY ORDER BY commands carry one key, INSERT of a settings row --
+   that is accepted is accepted again right after itself and changes nothing.  For every statement of these
+   shapes, every catalogue: no computation over a script list. *)
+Theorem guarded_statements_reexecutable : forall (cloud : bool) (s : stmt) (c c1 : cat),
+  wf c -> guarded s = true -> exec_ch cloud s c = Some c1 -> exec_ch cloud s c1 = Some c1 /\ wf c1.
+Proof. exact guarded_reexec. Qed.
+Print Assumptions guarded_statements_reexecutable.
+
+(* Hence convergence for ANY script lists and ON CLUSTER flags (a future script is covered by the translator's
+   classification alone): if every statement is of a guarded class and the uninterrupted run is accepted (on the
+   connected host, and the ON CLUSTER statements on any other host), then on 1 + n hosts, after any failures,
+   partially completed statements and restarts, one undisturbed start returns nil, every host ends where its
+   uninterrupted run ends and every version is recorded. *)
+Theorem rerun_converges_guarded :
+  forall (scripts : stream -> list stmt) (oncl : stream -> list bool) (c : cfg) (a b : cat) (n : nat) (runs : list (list outcome)),
+  (forall k, In k (streams_of c) -> forallb guarded (scripts k) = true) ->
+  cl_track_streams cat stmt (exec_ch (cloud c)) (cl_scripts scripts oncl c) (streams_of c) cat0 cat0 = Some (a, b) ->
+  let d := fst (multi_run (ccat cat) (cstmt stmt) (cl_exec cat stmt (exec_ch (cloud c))) (cl_pexec cat stmt (exec_ch (cloud c)))
+                  (cl_scripts scripts oncl c) c runs (db0 (ccat cat) (hosts0 (S n)))) in
+  let r := ch_update scripts oncl c [] d in
+  r_ok r = true /\ d_cat (r_db r) = a :: repeat b n /\
+  forall k, In k (streams_of c) -> d_vers (r_db r) k = List.length (cl_scripts scripts oncl c k).
+Proof. exact scripts_converge_if_guarded. Qed.
+Print Assumptions rerun_converges_guarded.
+
+(* Its hypotheses for the repository: all 75 regenerated statements are of a guarded class (a syntactic test, no
+   statement is executed) and the uninterrupted run is accepted on both tracks in all eight configurations.
+   rerun_converges_scripts above is now derived from these two facts and the class theorem. *)
+Theorem scripts_guarded :
+  forallb (fun k => forallb guarded (gen_scripts k)) all_streams = true /\
+  forall c : cfg, is_some (cl_track_streams cat stmt (exec_ch (cloud c)) (cl_scripts gen_scripts gen_oncluster c) (streams_of c) cat0 cat0) = true.
+Proof. exact (conj gen_guarded gen_track_accepted). Qed.
+Print Assumptions scripts_guarded.
+
+(* ---- the small-step process model used for two concurrent starters refines the big-step update IN GENERAL (was:
+   8 computed runs): one process alone, stepped calls_bound times (3 + 2 per script, per stream) under the same
+   outcome list, makes exactly the calls of update, ends in the same database and returns the same verdict --
+   any statement semantics, scripts, configuration, outcomes, start database. *)
+Theorem small_step_refines_update :
+  forall (cat stmt : Type) (exec : stmt -> cat -> option cat) (pexec : list bool -> stmt -> cat -> cat)
+         (scripts : stream -> list stmt) (c : cfg) (os : list outcome) (d : db cat),
+  solo_run cat stmt exec pexec scripts c (calls_bound stmt scripts c) (proc0 c) os d =
+  (p_done (r_ok (update cat stmt exec pexec scripts c os d)), r_db (update cat stmt exec pexec scripts c os d),
+   r_log (update cat stmt exec pexec scripts c os d)).
+Proof. exact solo_refines_update. Qed.
+Print Assumptions small_step_refines_update.
+
+(* ---- a candidate repair of finding concurrent-starters, examined in the model and NOT landed: re-reading max(ver)
+   immediately before every script and jumping ahead (model/MigrateRepair.v).  Under every interleaving a process
+   then sends script i only directly after it read, itself, a version <= i of that stream ... *)
+Theorem reread_script_after_own_read :
+  forall (cat stmt : Type) (exec : stmt -> cat -> option cat) (pexec : list bool -> stmt -> cat -> cat)
+         (scripts : stream -> list stmt) (c : cfg) (sched : list (bool * outcome)) (d : db cat),
+  pmonR None (plog false (snd (conc_runR cat stmt exec pexec scripts c sched (procR0 c) (procR0 c) d))) = true /\
+  pmonR None (plog true (snd (conc_runR cat stmt exec pexec scripts c sched (procR0 c) (procR0 c) d))) = true.
+Proof. exact reread_script_after_own_read. Qed.
+Print Assumptions reread_script_after_own_read.
+
+(* ... which closes the recorded witness shape (a starter holding a version read long ago) but not the finding: the
+   other starter can pass script i between that read and the statement.  With the repository's scripts: q alone up
+   to its re-read before script 3, then p runs the whole initialisation, then q sends DROP TABLE IF EXISTS
+   samples_read -- both return nil, every later start is a no-op, samples_read is missing for good. *)
+Theorem reread_repair_insufficient : reread_closes_stale_start = true /\ reread_witness = true.
+Proof. exact reread_repair_examined. Qed.
+Print Assumptions reread_repair_insufficient.
